@@ -2,6 +2,7 @@ package consul
 
 import (
 	"bytes"
+	"errors"
 	"fmt"
 	"log"
 	"net"
@@ -115,9 +116,17 @@ func (r routecmd) build() []string {
 	return config
 }
 
-// validateCommand checks whether the route parser accepts cmd.
+// validateCommand checks that cmd is exactly one 'route add' command
+// which fabio's own route parser and table construction accept.
 func validateCommand(cmd string) error {
-	_, err := route.Parse(bytes.NewBufferString(cmd))
+	defs, err := route.Parse(bytes.NewBufferString(cmd))
+	if err != nil {
+		return err
+	}
+	if len(defs) != 1 || defs[0].Cmd != route.RouteAddCmd {
+		return errors.New("not a single 'route add' command")
+	}
+	_, err = route.NewTable(bytes.NewBufferString(cmd))
 	return err
 }
 
